@@ -67,6 +67,21 @@ func hGoodFrames() []hFrame {
 					&lorawan.MACCommand{CID: lorawan.DevStatusAns, Payload: &lorawan.DevStatusAnsPayload{Battery: 200, Margin: 7}},
 				}}}
 		}},
+		{"up-2x-proprietary-0x90-fopts", func() lorawan.PHYPayload {
+			// CID 0x90 is registered (uplink, 2 bytes) by frameHistory for the duration of the part
+			return lorawan.PHYPayload{MHDR: lorawan.MHDR{MType: lorawan.UnconfirmedDataUp, Major: lorawan.LoRaWANR1}, MIC: lorawan.MIC{3, 1, 4, 1}, MACPayload: &lorawan.MACPayload{
+				FHDR: lorawan.FHDR{DevAddr: lorawan.DevAddr{5, 5, 5, 5}, FCnt: 21, FOpts: []lorawan.Payload{
+					&lorawan.MACCommand{CID: lorawan.CID(0x90), Payload: &lorawan.ProprietaryMACCommandPayload{Bytes: []byte{0x11, 0x12}}},
+					&lorawan.MACCommand{CID: lorawan.CID(0x90), Payload: &lorawan.ProprietaryMACCommandPayload{Bytes: []byte{0x21, 0x22}}},
+				}}}}
+		}},
+		{"up-proprietary-0x90-port0", func() lorawan.PHYPayload {
+			return lorawan.PHYPayload{MHDR: lorawan.MHDR{MType: lorawan.UnconfirmedDataUp, Major: lorawan.LoRaWANR1}, MIC: lorawan.MIC{2, 7, 1, 8}, MACPayload: &lorawan.MACPayload{
+				FHDR: lorawan.FHDR{DevAddr: lorawan.DevAddr{5, 5, 5, 5}, FCnt: 22}, FPort: hPort(0), FRMPayload: []lorawan.Payload{
+					&lorawan.MACCommand{CID: lorawan.CID(0x90), Payload: &lorawan.ProprietaryMACCommandPayload{Bytes: []byte{0x31, 0x32}}},
+					&lorawan.MACCommand{CID: lorawan.LinkCheckReq},
+				}}}
+		}},
 		{"down-empty", func() lorawan.PHYPayload {
 			return lorawan.PHYPayload{MHDR: lorawan.MHDR{MType: lorawan.UnconfirmedDataDown, Major: lorawan.LoRaWANR1}, MIC: lorawan.MIC{0xA, 0xB, 0xC, 0xD}, MACPayload: &lorawan.MACPayload{
 				FHDR: lorawan.FHDR{DevAddr: lorawan.DevAddr{0xFE, 0xDC, 0xBA, 0x98}, FCtrl: lorawan.FCtrl{FPending: true, ClassB: true}, FCnt: 0xFFFF}}}
